@@ -442,12 +442,13 @@ class Gen:
             m = self.model(world)
             if self.kind == 'msg' and m is not None and rng.random() < 0.35:
                 segs = [k for k in m.kids if k.kind == 'seg' and k.key != 'MSH']
+                segs = [k for k in segs if not EM.has_empty(k)]     # (blank children have no text: out of regime)
                 if segs:
                     src = rng.choice(segs)
                     n = len(m.reps('seg', src.key))
                     return {'k': 'set', 'p': [], 'c': ['seg', src.key, rng.randrange(0, n + 1), 0], 'via': 'item',
                             'v': {'copy': [0, [], ['seg', src.key, 0, 0]]}}
-            if node is not None and node.kids and node.key != 'MSH':
+            if node is not None and node.kids and node.key != 'MSH' and not EM.has_empty(node):
                 src = rng.choice(node.kids)
                 n = len(node.reps('fld', src.key))
                 return {'k': 'set', 'p': path, 'c': ['fld', src.key, rng.randrange(0, n + 1), self.sp()], 'via': 'item',
